@@ -17,6 +17,9 @@ MIN_NONTRIVIAL = {"quick": 20, "thorough": 800}
 BLOB = (100, 400)
 NO_SHRINK = True          # thread failures are statistical: the failing configuration is reported as generated
 REPLAY_TRIES, REPLAY_NEED = 20, 1
+# thread timing decides whether a run hits a window; when a replay does not, three or more independent generated cases that failed the
+# same way in one campaign are accepted instead (one watchdog / accounting failure could be load, three are not)
+CORROBORATED = {"deadlock": 3, "lost-or-duplicated-event": 3}
 
 
 def self_evident(sig, text):
@@ -60,8 +63,8 @@ def gen(d, tier):
     prods = []
     for p in range(nprod):
         n = d.rng(1, 8)
-        ops = [d.weighted([(6, 0), (4, 1), (2, 9), (2, 10), (2, 2), (1, 3), (1, 4), (1, 5), (1, 6), (2, 7), (1, 8)]) for _ in range(n)]
-        if not any(o in (0, 1, 9, 10) for o in ops):
+        ops = [d.weighted([(6, 0), (4, 1), (2, 9), (2, 10), (2, 2), (1, 3), (1, 4), (1, 5), (1, 6), (2, 7), (1, 8), (3, 11)]) for _ in range(n)]
+        if not any(o in (0, 1, 9, 10, 11) for o in ops):
             ops[0] = 0
         prods.append(dict(repeat=d.pick([50, 100, 200, 300, 600]), ops=ops))
     lines = b""
